@@ -28,6 +28,12 @@ class InMemoryStorage:
         self._arrays = {}
         self.is_eternal = is_eternal
 
+    def clone(self) -> InMemoryStorage:
+        """Copy the storage (the arrays themselves are shared, not copied)."""
+        new = InMemoryStorage(is_eternal=self.is_eternal)
+        new._arrays = dict(self._arrays)
+        return new
+
     def get(self, period: None | t.Period = None) -> None | t.Array[t.DTypeGeneric]:
         """Retrieve the data for the specified :obj:`.Period` from memory.
 
